@@ -60,14 +60,18 @@ type Store struct {
 }
 
 var (
-	once  sync.Once
-	store *Store
+	once      sync.Once
+	store     *Store
+	topicOnce sync.Once
+	topicSt   *Store
 )
 
-func detSK(seed byte) *bls.SecretKey {
+func detSK(seed byte) *bls.SecretKey { return detSK2(seed, 0) }
+
+func detSK2(seed, salt byte) *bls.SecretKey {
 	var b [32]byte
 	for i := range b {
-		b[i] = seed + byte(i)*7
+		b[i] = seed + byte(i)*7 + salt*byte(i*i+1)
 	}
 	b[31] &= 0x0f
 	sk := &bls.SecretKey{}
@@ -80,7 +84,46 @@ func detSK(seed byte) *bls.SecretKey {
 // Shared returns the process-wide store: validator 0 is the spec key-set validator with committee 4
 // (active), 1 = committee 7 (other key, active), 2 = liquidated, 3 = metadata-less, 4 = exited, 5 = unknown.
 func Shared() *Store {
-	once.Do(func() {
+	once.Do(func() { store = build(false) })
+	return store
+}
+
+// TopicStore is a second process-wide store with many active committee-4 validators whose public keys cover
+// every one of the 128 subnets (same operators as Shared): the domain of the "sent on that validator's topic" rule.
+func TopicStore() *Store {
+	topicOnce.Do(func() { topicSt = build(true) })
+	return topicSt
+}
+
+// IsActive says whether fixture validator idx of Shared() is known, active and not liquidated.
+func IsActive(idx int) bool {
+	v := Shared().Vals
+	return idx >= 0 && idx < len(v) && v[idx].State == Active
+}
+
+// CommitteeSize returns the committee size of fixture validator idx of Shared().
+func CommitteeSize(idx int) int { v := Shared().Vals; return v[idx%len(v)].N }
+
+// ActiveIdx lists the active validators of Shared().
+func ActiveIdx() []int {
+	var out []int
+	for i, v := range Shared().Vals {
+		if v.State == Active {
+			out = append(out, i)
+		}
+	}
+	return out
+}
+
+// Subnet computes a validator key's subnet independently of network/commons: the first five bytes of the key
+// read as a big-endian number, modulo 128 (network/commons.ValidatorSubnet: first ten hex digits mod subnet count).
+func Subnet(pk []byte) int {
+	// 128 divides 256: only the fifth byte matters
+	return int(pk[4]) % 128
+}
+
+func build(topics bool) *Store {
+	{
 		db, err := kv.NewInMemory(zap.NewNop(), basedb.Options{})
 		if err != nil {
 			panic(err)
@@ -102,16 +145,16 @@ func Shared() *Store {
 			}
 		}
 		s.Rogue, _ = keys.GeneratePrivateKey()
-		mk := func(state string, n int, seed byte) *Val {
+		mkpk := func(state string, n int, index int, pk []byte) *Val {
 			ks := fx.KeySet(n)
 			v := &Val{State: state, N: n, KS: ks}
 			sh := *testingutils.TestingShare(ks)
-			if seed != 0 {
-				sh.ValidatorPubKey = detSK(seed).GetPublicKey().Serialize()
+			if pk != nil {
+				sh.ValidatorPubKey = pk
 			}
 			v.PK = sh.ValidatorPubKey
 			v.Share = &ssvtypes.SSVShare{Share: sh, Metadata: ssvtypes.Metadata{
-				BeaconMetadata: &beaconprotocol.ValidatorMetadata{Status: eth2apiv1.ValidatorStateActiveOngoing, Index: phase0.ValidatorIndex(100 + int(seed))},
+				BeaconMetadata: &beaconprotocol.ValidatorMetadata{Status: eth2apiv1.ValidatorStateActiveOngoing, Index: phase0.ValidatorIndex(index)},
 			}}
 			switch state {
 			case Liquidated:
@@ -128,10 +171,29 @@ func Shared() *Store {
 			}
 			return v
 		}
-		s.Vals = []*Val{mk(Active, 4, 0), mk(Active, 7, 11), mk(Liquidated, 4, 22), mk(NoMetadata, 4, 33), mk(NotAttesing, 4, 44), mk(Unknown, 4, 55)}
-		store = s
-	})
-	return store
+		mk := func(state string, n int, seed byte) *Val {
+			if seed == 0 {
+				return mkpk(state, n, 100, nil)
+			}
+			return mkpk(state, n, 100+int(seed), detSK(seed).GetPublicKey().Serialize())
+		}
+		if topics {
+			seen := map[int]bool{}
+			for salt := 1; salt < 8 && len(seen) < 128; salt++ {
+				for seed := 1; seed < 256 && len(seen) < 128; seed++ {
+					pk := detSK2(byte(seed), byte(salt)).GetPublicKey().Serialize()
+					if sn := Subnet(pk); !seen[sn] {
+						seen[sn] = true
+						s.Vals = append(s.Vals, mkpk(Active, 4, 1000+len(s.Vals), pk))
+					}
+				}
+			}
+			return s
+		}
+		s.Vals = []*Val{mk(Active, 4, 0), mk(Active, 7, 11), mk(Liquidated, 4, 22), mk(NoMetadata, 4, 33), mk(NotAttesing, 4, 44), mk(Unknown, 4, 55),
+			mk(Active, 10, 66), mk(Active, 13, 77)}
+		return s
+	}
 }
 
 // Env is one validator instance with its own virtual clock (fresh per case).
@@ -149,7 +211,11 @@ const BaseEpoch = phase0.Epoch(1000)
 // NewEnv builds a fresh validator. signed=true puts the clock after the permissionless activation
 // epoch (signed envelopes required), false before it.
 func NewEnv(signed bool, opts ...validation.Option) *Env {
-	s := Shared()
+	return NewEnvStore(Shared(), signed, opts...)
+}
+
+// NewEnvStore is NewEnv over a given store (Shared or TopicStore).
+func NewEnvStore(s *Store, signed bool, opts ...validation.Option) *Env {
 	clock := fx.NewClock(time.Time{})
 	b := fx.NewBeacon(clock)
 	cfg := networkconfig.TestNetwork
@@ -211,4 +277,6 @@ func PMsg(topic string, data []byte) *pubsub.Message {
 	return &pubsub.Message{Message: &pspb.Message{Data: data, Topic: &topic}}
 }
 
-func (v *Val) String() string { return fmt.Sprintf("%s/%d/%s", v.State, v.N, hex.EncodeToString(v.PK[:4])) }
+func (v *Val) String() string {
+	return fmt.Sprintf("%s/%d/%s", v.State, v.N, hex.EncodeToString(v.PK[:4]))
+}
